@@ -714,6 +714,9 @@ def _cases(tier, kind):
                 vn = ("plain", "ign1", "sc05", "sc0")[salt % 4]
                 ign, sc = variant(vn, have, salt)
                 yield dict(edges=[[u, v, None] for u, v in E], nodes=nl, mode="node", wt=wt, k=k, ign=ign, sc=sc, fam="dag/node/" + vn)
+                if salt % 4 == 0:
+                    # the original edges carry an attribute named like the node attribute: in node mode it must not count
+                    yield dict(edges=[[u, v, (9 if wt == "int" else 9.5)] for u, v in E], nodes=nl, mode="node", wt=wt, k=k, ign=ign, sc=sc, fam="dag/node/edgeattr/" + vn)
     # ---- DAG model, values on nodes + solution_weights_superset with an offered weight that stays unused BEFORE a used one
     if kind == "lae":
         for E, nl in (([("x", "y"), ("y", "z")], [["x", 3], ["y", 3], ["z", 3]]),
